@@ -41,6 +41,11 @@ type Plan struct {
 	Deaf    bool  `json:"deaf,omitempty"`    // the source ignores its context and never ends (it keeps answering)
 	// Huge: maxWait is the largest Duration ("never hand out an underfilled batch on time") instead of 1s
 	Huge bool `json:"huge,omitempty"`
+	// CloseMs: the source's Close takes that long (fake time)
+	CloseMs int `json:"close_ms,omitempty"`
+	// Long: the source has thousands of items without gaps and the batches are large, so that one stream object
+	// goes through hundreds of batches (anything that creeps per batch needs that many to show)
+	Long int `json:"long,omitempty"`
 	// Scribble: the consumer, which owns every batch it was handed, appends to it and overwrites its spare capacity
 	Scribble bool  `json:"scribble,omitempty"`
 	Consumer []COp `json:"consumer"`
@@ -72,6 +77,13 @@ func genPlan(t *rapid.T) Plan {
 		}
 		p.Consumer = append(p.Consumer, o)
 	}
+	p.CloseMs = rapid.SampledFrom([]int{0, 0, 0, 2, 700}).Draw(t, "closems")
+	if rapid.IntRange(0, 149).Draw(t, "long") == 0 {
+		p.Long = rapid.IntRange(6000, 14000).Draw(t, "longn")
+		p.Size = rapid.SampledFrom([]int{24, 32, 50}).Draw(t, "longsize")
+		p.Func, p.Gaps, p.EndGap = false, nil, 0
+		p.Consumer = nil
+	}
 	p.Huge = rapid.IntRange(0, 7).Draw(t, "huge") == 0
 	p.Scribble = rapid.Bool().Draw(t, "scribble")
 	p.Deaf = rapid.IntRange(0, 5).Draw(t, "deaf") == 0
@@ -85,6 +97,10 @@ func genPlan(t *rapid.T) Plan {
 		p.Consumer = append(p.Consumer, COp{Op: "close"})
 	} else {
 		p.Consumer = append(p.Consumer, COp{Op: "drain"})
+	}
+	if p.Long > 0 {
+		p.Deaf, p.Huge = false, false
+		p.Consumer = []COp{{Op: "drain"}}
 	}
 	return p
 }
@@ -129,14 +145,20 @@ func script(p Plan, out *vk.Outcome) error {
 		out.Label("maxwait-never")
 	}
 	n := len(p.Gaps)
+	if p.Long > 0 {
+		n = p.Long
+	}
 	items := make([]int, n)
 	gaps := make([]time.Duration, n)
 	for i := range items {
 		items[i] = i + 1
-		gaps[i] = time.Duration(p.Gaps[i]) * time.Millisecond
+		if i < len(p.Gaps) {
+			gaps[i] = time.Duration(p.Gaps[i]) * time.Millisecond
+		}
 	}
 	src := sk.NewRecStream("src", items)
 	src.Gaps = gaps
+	src.CloseDelay = time.Duration(p.CloseMs) * time.Millisecond
 	src.EndGap = time.Duration(p.EndGap) * time.Millisecond
 	E := sk.NewSentinel("E")
 	switch p.ErrKind { // a source may fail, for reasons of its own, with an error that wraps a context error
@@ -176,6 +198,7 @@ func script(p Plan, out *vk.Outcome) error {
 		s = stream.Batch[int](src, maxWait, p.Size)
 	}
 	var recs []nextRec
+	firstCaps := 0
 	var lastDelivery time.Time
 	delivered := 0
 	var final error
@@ -236,6 +259,12 @@ func script(p Plan, out *vk.Outcome) error {
 			if x != delivered+i+1 {
 				return vk.Violf("lost-or-duplicated", "%s returned %v, expected the items starting at %d", what, b, delivered+1)
 			}
+		}
+		if len(recs) <= 8 && cap(b) > firstCaps {
+			firstCaps = cap(b)
+		}
+		if len(recs) > 100 && len(b) >= 16 && cap(b) > 8*firstCaps && cap(b) > 8*len(b) {
+			return vk.Violf("capacity-creep", "%s: a batch of %d items arrives in a slice of capacity %d; the first batches of this stream (same size) had capacity <= %d: the spare capacity grows from batch to batch and will exhaust memory", what, len(b), cap(b), firstCaps)
 		}
 		first := delivered + 1
 		delivered += len(b)
